@@ -56,7 +56,24 @@ Contract_Result ==
   (stage = "done" /\ Variant = "code") =>
     /\ r.ia.ok
     /\ \A x \in 0..n - 1 : r.ia.sa[x] = SAof(t)[x + 1]
-Inv == Contract_Classify /\ Contract_Offsets /\ Contract_Copy /\ Contract_InduceB /\ Contract_Result
+(* stage 3, the reduction the two sorting engines rest on: ordering the B*   *)
+(* suffixes is ordering the suffixes of the string of B* SUBSTRING ranks    *)
+(* (ssort ranks the substrings, trSort sorts the rank string by doubling)   *)
+Pos == r.cl.pos
+BSub(l) == IF l = r.m - 1 THEN SubSeq(t, Pos[r.m] + 1, n) ELSE SubSeq(t, Pos[l + 1] + 1, Pos[l + 2] + 2)
+SeqLeq(u, v) == LET RECURSIVE le(_)
+                    le(k) == IF k > Len(u) THEN TRUE ELSE IF k > Len(v) THEN FALSE
+                             ELSE IF u[k] # v[k] THEN u[k] < v[k] ELSE le(k + 1)
+                IN le(1)
+SubRank(l) == Cardinality({ k \in 0..r.m - 1 : SeqLeq(BSub(k), BSub(l)) }) - 1
+RankStr(l) == [k \in 1..r.m - l |-> SubRank(l + k - 1)]       \* ranks of the substrings l, l+1, ..
+StrictLess(u, v) == u # v /\ SeqLeq(u, v)
+Contract_Reduction ==
+  stage = "done" =>
+    \A l1, l2 \in 0..r.m - 1 :
+      l1 # l2 => (SufLess(t, Pos[l1 + 1], Pos[l2 + 1]) <=> StrictLess(RankStr(l1), RankStr(l2)))
+
+Inv == Contract_Reduction /\ Contract_Classify /\ Contract_Offsets /\ Contract_Copy /\ Contract_InduceB /\ Contract_Result
 
 (* the broken stage contract must show: used with Variant = "swap" *)
 SwapHarmless == (stage = "done" /\ r.m >= 2) => (r.ia.ok /\ \A x \in 0..n - 1 : r.ia.sa[x] = SAof(t)[x + 1])
